@@ -94,7 +94,7 @@ CLAIMED = {
              "(root hash + database only) reaches exactly these states: its counts are the true reference counts, its database holds "
              "exactly the live nodes with their encodings (Free.run_pruning_exact, Free.op_is_executor_op). WHOLE HISTORIES WITH squash_changes BLOCKS (Props/HistoryBlocks.lean): after any history of direct calls and blocks - each left normally or by an exception - pruning on or off, the trie is the tree of the FLATTENED history (committed blocks contribute their calls, aborted ones nothing), the database is complete for it and - pruning - holds exactly the live nodes with true counts (Free.history_blocks_world, history_blocks_pruning_exact), get of the tree-free world returns the flattened history's map model value and never raises (history_blocks_get), its root is the Yellow Paper root of those contents and depends on nothing else (history_blocks_root, history_blocks_root_depends_only_on_contents); applied to a concrete history with a committed and an aborted block (NonVacuity9). Tie: exact key set, "
              "counts, regenerate_ref_count after every operation; the raw-level reader on the model's pruned database after every op; the "
-             "tree-free executor alongside every direct operation (outcome, root, full database, counts). A REFUSED FIRST WRITE (Props/C06Refused.lean): a set/delete on a plain database that refuses the next write and is stopped by it leaves database, failure counter, counts and pending marks exactly as they were (first_write_refused_atomic; the count is incremented only after the write), and one that is not stopped had nothing to write (first_write_refused_ok_wrote_nothing); the quick check injects such operations.",
+             "tree-free executor alongside every direct operation (outcome, root, full database, counts). A REFUSED FIRST WRITE (Props/C06Refused.lean): a set/delete on a plain database that refuses the next write and is stopped by it leaves database, failure counter, counts and pending marks exactly as they were (first_write_refused_atomic; the count is incremented only after the write), and one that is not stopped had nothing to write (first_write_refused_ok_wrote_nothing); the quick check injects such operations. Lifted to whole histories (Props/HistoryRefusedFirst.lean): a direct call stopped by the refusal of its first write leaves the world LITERALLY as it was (refused_first_step), so a history with such steps reaches exactly the world of the history without them and exact pruning holds after it (refused_first_history, refused_first_history_exact).",
         technique="Lean 4 proof (structural induction, balance invariant) + correspondence check",
         design_ref="6/C06"),
     "C03": dict(
